@@ -115,6 +115,15 @@ type haRun struct {
 	s7crown  int           // the node that sees cert votes first (and next votes late); -1: not chosen yet
 	s7pickAt int           // 0: the sender of the round's first cert vote is crowned; 1: a PRNG-chosen node
 	s7split  time.Duration // how much later the other side sees the withheld votes
+	// S9 (lagging node, certificate of the next period before any payload; see routeS9)
+	s9round  basics.Round
+	s9lag    int
+	s9init   bool
+	s9heldP0 []*haPending // period-0 payloads held back for the lagging node
+	s9heldP1 []*haPending // payloads of later periods held back for the lagging node
+	s9phase  int
+	s9at     time.Duration
+
 	// S8 (split next quorums): in period 0 of the target round both a bottom and a value next-quorum form and the
 	// nodes are split between them; see routeS8
 	s8round   basics.Round
@@ -435,6 +444,10 @@ func (run *haRun) route(w *haWire, dst int) {
 		run.routeS8(w, dst, p)
 		return
 	}
+	if cs.Net == "S9" {
+		run.routeS9(w, dst, p)
+		return
+	}
 	// crown: only the crowned nodes receive
 	if run.crown != nil && !run.crown[dst] {
 		run.drops++
@@ -694,6 +707,110 @@ func (run *haRun) routeS8(w *haWire, dst int, p *haPending) {
 	}
 }
 
+// routeS9 (honest nodes, delays and losses only) makes one node L lag one period behind and lets it see the
+// certificate of the next period before any payload: in period 0 of round s9round
+//   - proposal votes reach everybody, but L gets no payload (they are held back); all soft votes are lost, so
+//     period 0 fails: at the deadline everybody next-votes bottom; L receives none of the next votes and stays in
+//     period 0 while the others move to period 1, propose, soft-vote, cert-vote and commit a block A;
+//   - of period 1, L receives only the cert votes: it holds a certificate for A without A's payload
+//     (stageDigest / EnsureDigest) while its proposal store still has the lowest period-0 proposal B;
+//   - then the held period-0 payloads (B's among them) are released to L, and A's payload a little later.
+// A correct node ignores B's payload and commits A with its certificate once A's payload arrives.
+// PRNG: the round, the lagging node, the delay before A's payload is released.
+func (run *haRun) routeS9(w *haWire, dst int, p *haPending) {
+	cl := run.cl
+	if !run.s9init {
+		run.s9init = true
+		run.s9round = basics.Round(1 + run.r.Intn(2))
+		run.s9lag = run.r.Intn(run.cs.Nodes)
+		cl.sched("S9 round=%d lagging=%d", run.s9round, run.s9lag)
+	}
+	L := run.s9lag
+	if run.s9phase >= 3 {
+		run.push(p) // the construction is over
+		return
+	}
+	switch w.tag {
+	case protocol.ProposalPayloadTag:
+		o, err := decodeProposal(w.data)
+		if err != nil || o.(compoundMessage).Proposal.Round() != run.s9round || dst != L {
+			break
+		}
+		if o.(compoundMessage).Proposal.OriginalPeriod == 0 {
+			run.s9heldP0 = append(run.s9heldP0, p)
+		} else {
+			run.s9heldP1 = append(run.s9heldP1, p)
+		}
+		return
+	case protocol.VoteBundleTag:
+		if o, err := decodeBundle(w.data); err == nil && o.(unauthenticatedBundle).Round == run.s9round && dst == L {
+			run.drops++
+			return
+		}
+	case protocol.AgreementVoteTag:
+		o, err := decodeVote(w.data)
+		if err != nil {
+			break
+		}
+		rv := o.(unauthenticatedVote).R
+		if rv.Round != run.s9round {
+			break
+		}
+		switch {
+		case rv.Period == 0 && rv.Step == propose:
+		case rv.Period == 0 && rv.Step == soft:
+			run.drops++
+			return
+		case rv.Step == cert:
+		default: // next and fast-recovery votes of any period, and propose/soft votes of later periods
+			if dst == L {
+				run.drops++
+				return
+			}
+		}
+	}
+	run.push(p)
+}
+
+// s9Tick releases the held payloads once the lagging node holds the certificate without the block.
+func (run *haRun) s9Tick() {
+	cl := run.cl
+	if !run.s9init || run.s9phase >= 3 {
+		return
+	}
+	l := cl.nodes[run.s9lag].ledger
+	switch run.s9phase {
+	case 0:
+		l.mu.Lock()
+		_, wants := l.want[run.s9round]
+		l.mu.Unlock()
+		if !wants {
+			if l.NextRound() > run.s9round {
+				run.s9phase = 3 // the node got the block some other way
+			}
+			return
+		}
+		run.s9phase = 1
+		run.s9at = cl.Now() + time.Duration(200+run.r.Intn(3000))*time.Millisecond
+		cl.sched("S9 release %d period-0 payloads to the lagging node; later payloads at %v", len(run.s9heldP0), run.s9at)
+		cl.mon.c.Count("s9_other_payload_after_certificate", 1)
+		for _, q := range run.s9heldP0 {
+			q.at = cl.Now()
+			run.push(q)
+		}
+		run.s9heldP0 = nil
+	case 1:
+		if cl.Now() >= run.s9at {
+			run.s9phase = 3
+			for _, q := range append(run.s9heldP0, run.s9heldP1...) {
+				q.at = cl.Now()
+				run.push(q)
+			}
+			run.s9heldP0, run.s9heldP1 = nil, nil
+		}
+	}
+}
+
 // s8Done: every node has left period 0 of the target round after the construction completed.
 func (run *haRun) s8Done() bool {
 	if run.s8phase < 2 {
@@ -842,6 +959,9 @@ func (run *haRun) prefixTick() {
 			}
 		}
 		run.held = keep
+	}
+	if cs.Net == "S9" {
+		run.s9Tick()
 	}
 	if run.crown != nil && cl.Now() >= run.crownTill {
 		run.crown = nil
@@ -1171,6 +1291,9 @@ func (run *haRun) advance() bool {
 	}
 	if run.crown != nil && !run.tail {
 		consider(run.crownTill)
+	}
+	if run.cs.Net == "S9" && run.s9phase == 1 && !run.tail {
+		consider(run.s9at)
 	}
 	if next < 0 {
 		// nothing armed anywhere: the cluster is stuck (every node down or frozen without a wake-up)
